@@ -67,6 +67,24 @@ def _b(t, c):
     if k == "Hess":
         f, x0, _ = P.hess_fn(s, t[1])
         return ops.Hessian(f, c.own(x0))
+    if k == "Lib":
+        import cola.linalg as L
+        which, n, tok = t[1], t[2], t[3]
+        if which == "TriInv":
+            return L.inv(ops.Triangular(c.own(P.tri(s, n, tok, True, "unit")), lower=True))
+        if which == "TriInvUpper":
+            return L.inv(ops.Triangular(c.own(P.tri(s, n, tok, False, "g")), lower=False))
+        if which == "CGInv":
+            return L.inv(cola.PSD(ops.Dense(c.own(P.dense(s, (n, n), tok, "spd")))), L.CG(tol=1e-13, max_iters=100))
+        if which == "LSTSQ":
+            from cola.linalg.inverse.pinv import LSTSQ
+            return L.pinv(ops.Dense(c.own(P.dense(s, (n, n), tok, "spd"))), LSTSQ())
+        if which == "ExpLanczos":
+            M = c.own(P.dense(s, (n, n), tok, "spd") / 8.0)
+            return L.exp(cola.PSD(ops.Dense(M)), L.Lanczos(max_iters=n + 2, tol=1e-13))
+        if which == "PinvWide":
+            return L.pinv(ops.Dense(c.own(P.dense(s, (n, n + 1), tok, "rdd"))))
+        raise ValueError(which)
     if k == "NoDisp":
         return cola.no_dispatch(_b(t[1], c))
     if k == "densify_lazify":
@@ -146,6 +164,8 @@ def to_source(t):
         return f"Permutation({P.perm(t[1], t[2]).tolist()},{t[3]})"
     if k in ("Jac", "Hess"):
         return f"{k}<{t[1]}>"
+    if k == "Lib":
+        return f"library-made:{t[1]}<{t[2]},{t[3]}>"
     if k == "Ann":
         return f"cola.{t[1]}({to_source(t[2])})"
     if k == "NoDisp":
